@@ -301,7 +301,10 @@ def cache_growth_table(prog, chk):
     fn = prog.fn("asyncClient_setOption", "net_async.c")
     cp, op, pp = [p["n"] for p in fn.params]
     OPT = prog.const("KSI_ASYNC_OPT_REQUEST_CACHE_SIZE")
-    for old, new, alloc_ok in ((3, 4, 1), (2, 2, 1), (2, 5, 1), (4, 6, 1), (3, 2, 1), (3, 3, 1), (3, 4, 0), (1, 3, 1)):
+    rows = [(3, 4, 1), (2, 2, 1), (2, 5, 1), (4, 6, 1), (3, 2, 1), (3, 3, 1), (3, 4, 0), (1, 3, 1)]
+    if getattr(chk, "tier", "quick") == "thorough":
+        rows += [(o, n_, 1) for o in range(1, 9) for n_ in range(1, 12) if (o, n_, 1) not in rows] + [(o, o + 1, 0) for o in (1, 2, 5, 8)]
+    for old, new, alloc_ok in rows:
         # `old` user slots => the option holds old + 1 (slot 0 is reserved); all user slots occupied
         inputs = {cp: Ptr("C"), op: OPT, pp: new, "C->ctx": Ptr("ctx"), "C->reqCache": Ptr("OLD"), "C->options[%d]" % OPT: old + 1, "OLD[0]": 0}
         for k in range(1, old + 1):
